@@ -165,6 +165,37 @@ let do_params args =
     if b then "1" else "0"
   | _ -> "BADREQ"
 
+(* ---- stream dense:  N <r> <c> <op> ...   /  stream solve:  L <p> <q> <L> <rows> <rhs> *)
+let rec n_to_int n = int_of_n n
+let hexword w = Printf.sprintf "%x" (int_of_n w)
+let do_dense args =
+  match args with
+  | nr :: nc :: ops ->
+    let m = ref (d_allocate (nat_of_int (int_of_string nr)) (nat_of_int (int_of_string nc))) in
+    let nat s = nat_of_int (int_of_string s) in
+    let toks = List.map (fun o ->
+      let a = Array.of_list (String.split_on_char ',' o) in
+      let op = match a.(0) with
+        | "s" -> DSet (nat a.(1), nat a.(2), a.(3) <> "0") | "g" -> DGet (nat a.(1), nat a.(2)) | "f" -> DFlip (nat a.(1), nat a.(2))
+        | "c" -> DClear | "y" -> DCopy (nat a.(1), nat a.(2), junk_of a.(3))
+        | "R" -> DCopyRows (nats_dot a.(1), junk_of a.(2)) | "C" -> DCopyCols (nats_dot a.(1), junk_of a.(2))
+        | "x" -> DXorRows (nat a.(1), nat a.(2)) | "w" -> DRowWeight (nat a.(1)) | "W" -> DColWeight (nat a.(1)) | "e" -> DRowEmpty (nat a.(1))
+        | _ -> failwith "op" in
+      let (m', res) = dense_step !m op in
+      m := m';
+      Printf.sprintf "%d=%s" (int_of_nat res) (String.concat ";" (List.map (fun row -> String.concat "." (List.map hexword row)) m'.drows))) ops in
+    "R " ^ String.concat " " toks
+  | _ -> "R BADREQ"
+let do_solve args =
+  match args with
+  | [p; q; l; rows; rhs] ->
+    let a = List.map (fun r -> List.init (String.length r) (fun i -> r.[i] = '1')) (String.split_on_char ';' rows) in
+    let b = List.map (fun s -> if s = "N" then None else Some (bytes_of_hex s)) (String.split_on_char ';' rhs) in
+    (match solve_bytes (nat_of_int (int_of_string p)) (nat_of_int (int_of_string q)) (nat_of_int (int_of_string l)) a b with
+     | None -> "R S1"
+     | Some x -> "R S0 " ^ String.concat ";" (List.map hex_of_bytes x))
+  | _ -> "R BADREQ"
+
 let () =
   try
     while true do
@@ -179,6 +210,8 @@ let () =
       | "R" :: args -> print_endline (do_rs args)
       | "Q" :: args -> print_endline (do_pchk args)
       | "V" :: args -> print_endline (do_params args)
+      | "N" :: args -> print_endline (do_dense args)
+      | "L" :: args -> print_endline (do_solve args)
       | _ -> print_endline "BADREQ"
     done
   with End_of_file -> ()
